@@ -361,6 +361,64 @@ def check_views(ctx):
                 ctx.violate(f"view {name} ({code}) is mis-wired: tx modes {txm}, rx modes {rxm}, scat key {v.scat_key()}", {**cj, "view": name}, {"kind": "wiring"})
 
 
+def check_views_from_paths(ctx):
+    """`make_views_from_paths` is the shared door of both models: the views of ANY dictionary of paths (any subset closed
+    under reversal, keys in any order) are the ordered pairs in the documented order (unique: the first of every
+    {view, reciprocal view} class), view X-Y being wired to paths[X] for transmit and paths[reverse(Y)] for receive."""
+    from arim.models import helpers as mh
+
+    rng = ctx.rng
+    key = lambda v: (len(v[0]) + len(v[1]), max(len(v[0]), len(v[1])), len(v[1]), len(v[0]), v[0], v[1])
+    for setup in (SETUPS[0], SETUPS[1]):
+        mod, exo, probe_op, grid_op, refs = build(setup)
+        made = mod.make_views(exo, probe_op, grid_op, max_number_of_reflection=2, tfm_unique_only=False)
+        paths = {}
+        for nm, v in made.items():
+            paths.setdefault(nm.split("-")[0], v.tx_path)
+        names_all = list(paths)
+        for trial in range(6 * ctx.scale):
+            order = ["reversed", "shuffled", "subset_shuffled", "as_made"][trial % 4]
+            if order == "reversed":
+                names = names_all[::-1]
+            elif order == "as_made":
+                names = list(names_all)
+            else:
+                names = list(names_all)
+                if order == "subset_shuffled":
+                    k = int(rng.integers(1, 5))
+                    pick = [names_all[i] for i in rng.permutation(len(names_all))[:k]]
+                    names = []
+                    for w in pick:
+                        for x in (w, w[::-1]):
+                            if x not in names:
+                                names.append(x)
+                names = [names[i] for i in rng.permutation(len(names))]
+            pd = {n_: paths[n_] for n_ in names}
+            for uniq in (False, True):
+                cj = {"op": "make_views_from_paths", "setup": setup[0], "path_names_in_dict_order": names, "unique": uniq}
+                ctx.case(("vfp", setup[0], tuple(names), uniq), len(names) >= 2)
+                ctx.count("views_from_paths:" + order)
+                try:
+                    views = mh.make_views_from_paths(pd, tfm_unique_only=uniq)
+                except Exception as e:
+                    ctx.violate(f"make_views_from_paths raised {type(e).__name__}: {str(e)[:80]}", cj, {"kind": "views_from_paths"})
+                    continue
+                full = sorted([(x, y) for x in names for y in names], key=key)
+                if uniq:
+                    rec = lambda v: (v[1][::-1], v[0][::-1])
+                    full = [v for v in full if full.index(v) <= full.index(rec(v))]
+                want = [f"{x}-{y}" for x, y in full]
+                if list(views) != want:
+                    ctx.violate(f"make_views_from_paths: views {list(views)[:8]}... are not the documented ones in the documented order {want[:8]}... "
+                                f"(paths given in the order {names})", cj, {"kind": "views_from_paths"})
+                    continue
+                for nm, v in views.items():
+                    x, y = nm.split("-")
+                    if v.name != nm or v.tx_path is not paths[x] or v.rx_path is not paths[y[::-1]]:
+                        ctx.violate(f"make_views_from_paths: view {nm} is not wired to paths[{x}] / paths[{y[::-1]}]", {**cj, "view": nm}, {"kind": "views_from_paths"})
+                        break
+
+
 def run(ctx):
     ctx.rule = ("all 9 set-ups (immersion; contact x backwall/frontwall/under-material) x 0-2 reflections x unique on/off for the wiring table "
                 "(exhaustive); make_viewnames on the canonical families + random name sets closed under reversal over L/T words of length <= 3; "
@@ -370,6 +428,7 @@ def run(ctx):
     n = len(_cache["entries"])
     ctx.notes.append(f"generated table: {n} distinct view entries in {len(_cache['tables'])} chunks, each discharged by `decide` in the kernel on this run")
     check_views(ctx)
+    check_views_from_paths(ctx)
     check_viewnames(ctx)
     check_paths(ctx)
 
